@@ -171,13 +171,22 @@ class BTGen:
         if rng.random() < 0.12:
             # rebalance on schedule or when out of bounds: weights first, then the gate
             st = st[1:] + [["or", [st[0], ["outofbounds", hx(rng.choice([0.0625, 0.125, 0.5]))]]]]
-            self.nonzero_targets = True
+            # RunIfOutOfBounds divides by the target weight: keep the target frames free of exact zeros
+            # (whether a zero raises ZeroDivisionError or yields inf depends on Python-float vs numpy typing)
+            for a in st:
+                if a[0] == "weightarget":
+                    for k, ad in self.adata:
+                        if k == a[1]:
+                            ad[2] = [[t, [hx(0.03125) if c == hx(0.0) else c for c in col]] for t, col in ad[2]]
         if rng.random() < 0.1:
             st.append(["closedead"])
         if rng.random() < 0.15:
             st.append(["always", True, ["rebalanceovertime", hx(float(rng.randint(2, 4)))]])
         else:
             st.append(["rebalance"])
+        if rng.random() < 0.12:
+            # a user-written algo after the stock ones: a fee / top-up booked without asking for an update
+            st.append(["useradjust", hx(dy(rng, -200, 50, 4)), rng.random() < 0.3, rng.random() < 0.3])
         return st
 
 
